@@ -22,13 +22,13 @@ VARIANTS = {
     "plain": ("gcc", ["-D" + GUARD, "-g", "-O2"], [], "plain"),
     "asan": ("clang",
              ["-D" + GUARD, "-g", "-O1", "-fno-omit-frame-pointer",
-              "-fsanitize=address,undefined", "-fno-sanitize=float-cast-overflow,float-divide-by-zero",
+              "-fsanitize=address,undefined", "-fno-sanitize=float-cast-overflow,float-divide-by-zero,signed-integer-overflow,shift",
               "-fno-sanitize-recover=undefined"],
              ["-fsanitize=address,undefined"], "plain"),
     "fuzz": ("clang",
              ["-D" + GUARD, "-g", "-O1", "-fno-omit-frame-pointer",
               "-fsanitize=fuzzer-no-link,address,undefined",
-              "-fno-sanitize=float-cast-overflow,float-divide-by-zero",
+              "-fno-sanitize=float-cast-overflow,float-divide-by-zero,signed-integer-overflow,shift",
               "-fno-sanitize-recover=undefined"],
              ["-fsanitize=address,undefined"], "plain"),
     "tsan": ("clang",
@@ -67,7 +67,7 @@ def build(variant, quiet=True):
                    "--buildtype=" + bt,
                    "-Ddefault_library=static",
                    "-Dtests=disabled", "-Dexamples=disabled", "-Dbenchmarks=disabled",
-                   "-Dgtk_doc=disabled", "-Dorc-test=disabled", "-Dtools=enabled",
+                   "-Dgtk_doc=disabled", "-Dorc-test=enabled", "-Dtools=enabled",
                    "-Dc_args=" + " ".join(cargs),
                    "-Dc_link_args=" + " ".join(ldargs)]
             r = subprocess.run(cmd, env=env, stdout=subprocess.PIPE, stderr=subprocess.STDOUT, text=True)
